@@ -24,7 +24,9 @@ rc::Gen<std::vector<Op>> batchOps(int maxOps) {
 }
 
 rc::Gen<Case> shapeCase(const std::string &prop, int shape, int thLo, int thHi, rc::Gen<std::vector<Op>> o, int schedLen) {
-    return genCase(prop, genHeader({{shape, shape}, {thLo, thHi}}), std::move(o), genSched(schedLen));
+    // h[2] = 1: PCT-style priority schedule (the bytes seed priorities and change points), else explicit choice vector
+    return rc::gen::weightedOneOf<Case>({{4, genCase(prop, genHeader({{shape, shape}, {thLo, thHi}, {0, 0}}), o, genSched(schedLen))},
+                                         {1, genCase(prop, genHeader({{shape, shape}, {thLo, thHi}, {1, 1}}), o, genSchedPCT())}});
 }
 
 Register r01("C01", [](Tier t) {
